@@ -62,6 +62,10 @@ HANDLERS['C03'] = [HANDLERS['C06'][0], HANDLERS['C02'][2]]
 HANDLERS['C04'] = [HANDLERS['C01'][0], HANDLERS['C12'][1]]
 HANDLERS['C06'] = HANDLERS['C06'] + [HANDLERS['C02'][2]]
 CENSUS.setdefault('C06', []).append('~+Peers::add_block')
+HANDLERS['C09'] = [HANDLERS['C02'][2], HANDLERS['C06'][0]]
+HANDLERS['C08'] = [HANDLERS['C12'][1], HANDLERS['C02'][2], HANDLERS['C06'][0]]
+for _k in ('C08', 'C09'):
+    CENSUS.setdefault(_k, []).extend(HANDLERS[_k])
 for _k, _v in HANDLERS.items():
     CENSUS.setdefault(_k, []).extend(_v)
 
